@@ -22,10 +22,21 @@ extern "C" void gcry_md_hash_buffer(int algo, void *digest, const void *buffer, 
 }
 
 static std::vector<System*> g_systems;
+static Z g_small_order;   // u = x^q mod p for the current VTMF group: order divides k = (p-1)/q; not 1, not p-1
+static void find_small_order(mpz_srcptr p, mpz_srcptr q) {
+	Z x, pm1; mpz_sub_ui(pm1, p, 1); mpz_set_ui(g_small_order, 0);
+	for (unsigned long b = 2; b < 200; b++) { mpz_set_ui(x, b); mpz_powm(x, x, q, p); if (mpz_cmp_ui(x.v, 1) && mpz_cmp(x, pm1)) { mpz_set(g_small_order, x); return; } }
+}
 static void emit(System *S, const Args &a, int reps) {
 	if (!a.replay.empty() && a.replay != S->name) { delete S; return; }
+	if (mpz_sgn(S->small_order.v) == 0 && mpz_sgn(g_small_order.v) > 0 && mpz_cmp(S->p, S->q) != 0) S->small_order = g_small_order;
 	GridStats st; int done = 0;
 	for (int r = 0; r < reps; r++) if (run_grid(*S, st)) done++;
+	{   // >= 24 fresh proofs per position and substitution (48 thorough); large statements get fewer to stay in the time budget
+		size_t nrk = 0; for (auto &k : S->knobs) if (k.reprove) nrk++;
+		run_reprove(*S, st, nrk > 16 ? 12 : (a.thorough() ? 48 : 24));
+	}
+	if (st.reproved) printf("REPROVED %s attempts=%lu thrown=%lu\n", S->name.c_str(), st.reproved, st.reproved_thrown);
 	printf("GRID %s runs=%d atoms=%lu mutants=%lu rejected=%lu thrown=%lu tolerated=%lu knobmut=%lu fails=%lu\n", S->name.c_str(), done, st.atoms, st.mutants, st.rejected, st.thrown, st.tolerated_acc, st.knobmut, st.fails);
 	fflush(stdout);
 	delete S;
@@ -52,6 +63,7 @@ static void vtmf_systems(World &W, const Args &a) {
 		S->verifier = [K](std::istream &i, std::ostream&) { return K->KeyGenerationProtocol_UpdateKey(i); };
 		S->reset = [K, h0]() { mpz_set(K->h, *h0); for (auto &kv : K->h_j) { mpz_clear(kv.second); delete [] kv.second; } K->h_j.clear(); };
 		group_knobs(S, K, false);
+		{ Knob k{"hi", nullptr, 'g'}; k.reprove = true; k.pptr = A->h_i; S->knobs.push_back(k); }   // the prover publishes a tampered key share
 		S->label = fixed_labels({"hi", "c", "r"});
 		emit(S, a, reps);
 	}
@@ -60,7 +72,7 @@ static void vtmf_systems(World &W, const Args &a) {
 		Z *key = new Z(A->h_i);
 		S->prover = [A](std::istream &i, std::ostream &o) { A->KeyGenerationProtocol_ProveKey_interactive(i, o); };
 		S->verifier = [B, key](std::istream &i, std::ostream &o) { return B->KeyGenerationProtocol_VerifyKey_interactive(*key, i, o); };
-		group_knobs(S, B, false); S->knobs.push_back(Knob{"key", *key, 'g'});
+		group_knobs(S, B, false); S->knobs.push_back(RK("key", *key, nullptr));
 		S->label = fixed_labels({"m1", "m2"});
 		emit(S, a, reps);
 	}
@@ -71,7 +83,7 @@ static void vtmf_systems(World &W, const Args &a) {
 		JareckiLysyanskayaEDCF *eb = new JareckiLysyanskayaEDCF(2, 0, B->p, B->q, B->g, B->h);
 		S->prover = [A, ea](std::istream &i, std::ostream &o) { A->KeyGenerationProtocol_ProveKey_interactive_publiccoin(ea, i, o); };
 		S->verifier = [B, eb, key](std::istream &i, std::ostream &o) { return B->KeyGenerationProtocol_VerifyKey_interactive_publiccoin(*key, eb, i, o); };
-		group_knobs(S, B, false); S->knobs.push_back(Knob{"key", *key, 'g'});
+		group_knobs(S, B, false); S->knobs.push_back(RK("key", *key, nullptr));
 		S->label = [](size_t i, size_t n) { return i == 0 ? std::string("m1") : i + 1 == n ? std::string("m2") : std::string("coin"); };
 		emit(S, a, reps);
 	}
@@ -82,7 +94,7 @@ static void vtmf_systems(World &W, const Args &a) {
 		*vm = *m; *vc1 = *c1; *vc2 = *c2;
 		S->prover = [=](std::istream&, std::ostream &o) { A->VerifiableMaskingProtocol_Prove(*m, *c1, *c2, *r, o); };
 		S->verifier = [=](std::istream &i, std::ostream&) { return B->VerifiableMaskingProtocol_Verify(*vm, *vc1, *vc2, i); };
-		group_knobs(S, B); S->knobs.push_back(Knob{"m", *vm, 'g'}); S->knobs.push_back(Knob{"c1", *vc1, 'g'}); S->knobs.push_back(Knob{"c2", *vc2, 'g'});
+		group_knobs(S, B); S->knobs.push_back(RK("m", *vm, *m)); S->knobs.push_back(RK("c1", *vc1, *c1)); S->knobs.push_back(RK("c2", *vc2, *c2));
 		S->label = fixed_labels({"c", "r"});
 		emit(S, a, reps);
 	}
@@ -95,7 +107,7 @@ static void vtmf_systems(World &W, const Args &a) {
 		S->prover = [=](std::istream&, std::ostream &o) { A->VerifiableRemaskingProtocol_Prove(*c1, *c2, *d1, *d2, *r2, o); };
 		S->verifier = [=](std::istream &i, std::ostream&) { return B->VerifiableRemaskingProtocol_Verify(*v1, *v2, *w1, *w2, i); };
 		group_knobs(S, B);
-		S->knobs.push_back(Knob{"c1", *v1, 'g'}); S->knobs.push_back(Knob{"c2", *v2, 'g'}); S->knobs.push_back(Knob{"cc1", *w1, 'g'}); S->knobs.push_back(Knob{"cc2", *w2, 'g'});
+		S->knobs.push_back(RK("c1", *v1, *c1)); S->knobs.push_back(RK("c2", *v2, *c2)); S->knobs.push_back(RK("cc1", *w1, *d1)); S->knobs.push_back(RK("cc2", *w2, *d2));
 		S->label = fixed_labels({"c", "r"});
 		emit(S, a, reps);
 	}
@@ -121,7 +133,7 @@ static void vtmf_systems(World &W, const Args &a) {
 		S->prover = [=](std::istream&, std::ostream &o) { if (which == 0) A->OR_ProveFirst(*y1, *y2, A->g, A->h, *al, o); else A->OR_ProveSecond(*y1, *y2, A->g, A->h, *al, o); };
 		S->verifier = [=](std::istream &i, std::ostream&) { return B->OR_Verify(*w1, *w2, *g1, *g2, i); };
 		group_knobs(S, B);
-		S->knobs.push_back(Knob{"y1", *w1, 'g'}); S->knobs.push_back(Knob{"y2", *w2, 'g'}); S->knobs.push_back(Knob{"g1", *g1, 'g'}); S->knobs.push_back(Knob{"g2", *g2, 'g'});
+		S->knobs.push_back(RK("y1", *w1, *y1)); S->knobs.push_back(RK("y2", *w2, *y2)); S->knobs.push_back(Knob{"g1", *g1, 'g'}); S->knobs.push_back(Knob{"g2", *g2, 'g'});
 		S->label = fixed_labels({"c", "c", "r", "r"});
 		emit(S, a, reps);
 	}
@@ -134,7 +146,7 @@ static void vtmf_systems(World &W, const Args &a) {
 		S->prover = [=](std::istream &i, std::ostream &o) { T->TMCG_ProveMaskCard(*c, *cc, *cs, A, i, o); };
 		S->verifier = [=](std::istream &i, std::ostream &o) { return T->TMCG_VerifyMaskCard(*vc, *vcc, B, i, o); };
 		group_knobs(S, B);
-		S->knobs.push_back(Knob{"c.c1", vc->c_1, 'g'}); S->knobs.push_back(Knob{"c.c2", vc->c_2, 'g'}); S->knobs.push_back(Knob{"cc.c1", vcc->c_1, 'g'}); S->knobs.push_back(Knob{"cc.c2", vcc->c_2, 'g'});
+		S->knobs.push_back(RK("c.c1", vc->c_1, c->c_1)); S->knobs.push_back(RK("c.c2", vc->c_2, c->c_2)); S->knobs.push_back(RK("cc.c1", vcc->c_1, cc->c_1)); S->knobs.push_back(RK("cc.c2", vcc->c_2, cc->c_2));
 		S->label = fixed_labels({"c", "r"});
 		emit(S, a, reps);
 		System *S2 = new System; S2->name = "cardsecret"; S2->p = Z(B->p); S2->q = Z(B->q);
@@ -166,8 +178,8 @@ static Stacks *make_stacks(SchindelhauerTMCG *T, BarnettSmartVTMF_dlog *A, size_
 }
 static void stack_knobs(System *S, Stacks *K) {
 	for (size_t i = 0; i < K->vs.size(); i++) {
-		S->knobs.push_back(Knob{"s" + std::to_string(i) + ".c1", K->vs[i].c_1, 'g'}); S->knobs.push_back(Knob{"s" + std::to_string(i) + ".c2", K->vs[i].c_2, 'g'});
-		S->knobs.push_back(Knob{"t" + std::to_string(i) + ".c1", K->vs2[i].c_1, 'g'}); S->knobs.push_back(Knob{"t" + std::to_string(i) + ".c2", K->vs2[i].c_2, 'g'});
+		S->knobs.push_back(RK("s" + std::to_string(i) + ".c1", K->vs[i].c_1, K->s[i].c_1)); S->knobs.push_back(RK("s" + std::to_string(i) + ".c2", K->vs[i].c_2, K->s[i].c_2));
+		S->knobs.push_back(RK("t" + std::to_string(i) + ".c1", K->vs2[i].c_1, K->s2[i].c_1)); S->knobs.push_back(RK("t" + std::to_string(i) + ".c2", K->vs2[i].c_2, K->s2[i].c_2));
 	}
 }
 
@@ -182,6 +194,11 @@ static void cutchoose_systems(World &W, const Args &a) {
 		S->prover = [=](std::istream &i, std::ostream &o) { T->TMCG_ProveStackEquality(K->s, K->s2, K->ss, cyc, A, i, o); };
 		S->verifier = [=](std::istream &i, std::ostream &o) { return T->TMCG_VerifyStackEquality(K->vs, K->vs2, cyc, B, i, o); };
 		group_knobs(S, B); stack_knobs(S, K);
+		// the re-proved-statement oracle uses 40 rounds: with few rounds a tampered INPUT stack survives with probability
+		// 2^-kappa (all challenges select the other stack), which is the protocol's soundness error, not a defect
+		SchindelhauerTMCG *T40 = new SchindelhauerTMCG(40, 2, 4);
+		S->rprover = [=](std::istream &i, std::ostream &o) { T40->TMCG_ProveStackEquality(K->s, K->s2, K->ss, cyc, A, i, o); };
+		S->rverifier = [=](std::istream &i, std::ostream &o) { return T40->TMCG_VerifyStackEquality(K->vs, K->vs2, cyc, B, i, o); };
 		// per round: commitment, then sts ^ n ^ (index ^ crs|r|)*n
 		S->label = [n](size_t i, size_t tot) { size_t per = 3 + 3 * n; if (tot % per) return std::string("tok"); size_t k = i % per;
 			if (k == 0) return std::string("commit"); if (k == 2) return std::string("size"); if (k < 3) return std::string("magic");
@@ -529,6 +546,7 @@ int main(int argc, char **argv) {
 	if (only == "rec") { fsser_records(a); verifier_records(a); printf("DONE rec\n"); return 0; }
 	World W(fsz, gsz);
 	printf("WORLD p=%s q=%s\n", hx(W.A->p).c_str(), hx(W.A->q).c_str());
+	find_small_order(W.A->p, W.A->q);
 	if (only.empty() || only == "vtmf") vtmf_systems(W, a);
 	if (only.empty() || only == "cutchoose") cutchoose_systems(W, a);
 	if (only.empty() || only == "groth") groth_systems(W, a);
